@@ -131,7 +131,19 @@ IterBad(r) ==
                               \/ (lastAmb /\ ItemsEq(x.items, SubSeq(frame, 1, n - 1), isobj, r.b)))
   IN {ep \in DOMAIN r.res : Bad(ep)}
 
-EventBad(r) == CASE r.ev = "get" -> GetBad(r) [] r.ev = "many" -> ManyBad(r) [] r.ev = "iter" -> IterBad(r) [] OTHER -> {"unknown-event"}
+SchemaBad(r) ==
+  LET sroot == BRun(r.schema, FALSE)
+      droot == BRun(r.b, FALSE)
+      judged == /\ sroot.s.m = "end" /\ ~sroot.inf /\ droot.s.m = "end" /\ ~droot.inf
+                /\ ~HasDups(droot.root) /\ ~HasDups(sroot.root)
+                /\ sroot.root.t = "obj"                      \* "The schema must be an object"
+      exp == Merge(sroot.root, droot.root)
+      Bad(ep) == LET x == r.res[ep] IN
+                 \/ ("panic" \in Checks /\ x.panic)
+                 \/ ("c11" \in Checks /\ ~x.panic /\ judged /\ (~x.ok \/ ~ValMatchesU(exp, x.v)))
+  IN {ep \in DOMAIN r.res : Bad(ep)}
+
+EventBad(r) == CASE r.ev = "get" -> GetBad(r) [] r.ev = "schema" -> SchemaBad(r) [] r.ev = "many" -> ManyBad(r) [] r.ev = "iter" -> IterBad(r) [] OTHER -> {"unknown-event"}
 
 Init == l = 1
 Next == /\ l <= Len(Rec) /\ EventBad(Rec[l]) = {} /\ l' = l + 1
